@@ -168,9 +168,15 @@ func calculateExecutionType(
 
 	case base.BLOCK_RESULT_ARRAY:
 		blockT := m.parser.GetLastEvaluatedT()
-		blockResultT := blockT.GetVal().(*base.T)
 
 		arrayT := base.MakeAnyArray()
+
+		// no block was given (or it is cut off): there is no block result
+		blockResultT, ok := blockT.GetVal().(*base.T)
+		if !ok || blockResultT == nil {
+			return arrayT
+		}
+
 		arrayT.AppendArrayVariant(*blockResultT)
 
 		return arrayT
